@@ -259,6 +259,10 @@ def run(ctx):
             c = dict(b)
             c["net"] = net_with(second)
             c["before"] = [{"net": net_with(first), "space": b["space"], "state": b["state"], "seed": 1}]
+            # ... and the earlier use of the object may have FAILED (a call that raised) or been abandoned after setup()
+            how = rng.choice([None, "raise", "raise", "abandon"])
+            if how:
+                c["before"][0]["fail"] = how
             c["option"] = option
             c["dt"] = 1 / 1024 if option == "euler" else 1 / 2048
             c["max_iter"] = {"euler": 40, "tauleap": 25, "gillespie": 120}[option]
@@ -294,6 +298,8 @@ def run(ctx):
             ctx.count("space_" + case["kind"])
             if case.get("before"):
                 ctx.count("engine_object_reused")
+                if case["before"][0].get("fail"):
+                    ctx.count("engine_object_reused_after_" + case["before"][0]["fail"])
             if case.get("mode") == "none":
                 ctx.count("none_mode_fractional_state")
             if case.get("mode") in ("Poisson", "redist"):
